@@ -1,6 +1,9 @@
 /* helpers shared by the suites of htp_driver.c */
 #ifndef DRV_UTIL_H
 #define DRV_UTIL_H
+/* the guarded trace points of /repo (-DOISF_LIBHTP_VERIF) call this; bit id is set when point id fired */
+static unsigned verif_trace_bits;
+void htp_verif_trace(int id) { if (id >= 0 && id < 32) verif_trace_bits |= 1u << id; }
 static int split_tabs(char *line, char **f, int max) {
     int n = 0;
     f[n++] = line;
